@@ -35,7 +35,7 @@ def check(ctx):
         raise AnalysisError('stream.write helper not found')
     wcalls = [c for c in own_nodes(wr[0].node) if isinstance(c, ast.Call) and isinstance(c.func, ast.Attribute)
               and c.func.attr == 'write']
-    run.check(len(wcalls) == 1 and wr[0].params[0] in [x.id for x in ast.walk(wcalls[0]) if isinstance(x, ast.Name)],
+    run.check(len(wcalls) == 1 and bool(set(wr[0].all_params) & {x.id for x in ast.walk(wcalls[0]) if isinstance(x, ast.Name)}),
               'R12', wr[0].where, wr[0].qualname, 'file.write(ejson.dumps(obj) + newline)',
               'the stream write helper does not write its argument')
     # file dumper rows_processor
